@@ -82,7 +82,15 @@ class FastPolicy(Container[Sequence[str]]):
         if self._current_filter is not None:
             return (list(x) for x in self._current_filter)
         else:
-            return (list(v2) for v in self._cache.values() for v1 in v.values() for v2 in v1)
+            return (list(rule) for bucket in self.__buckets(self._cache, len(self._cache_key_order)) for rule in bucket)
+
+    def __buckets(self, cache: Dict[str, Any], depth: int) -> Iterator[Set[Sequence[str]]]:
+        # one dict level per cache key, the sets of rules below the last one
+        for value in cache.values():
+            if depth > 1:
+                yield from self.__buckets(value, depth - 1)
+            else:
+                yield value
 
     def apply_filter(self, *keys: str) -> None:
         value = in_cache(self._cache, keys)
